@@ -902,3 +902,68 @@ PULSE 1 "frame1" flat(iq: 1, duration: 4e-9)
 "#
     }
 }
+
+/// Verification hooks: thin public wrappers around the private [`DependencyQueue`] so that its
+/// behaviour can be explored directly.  Compiled only with `--cfg rigetti_quil_rs_verif`.
+#[cfg(rigetti_quil_rs_verif)]
+pub mod verif_hooks {
+    use super::dependency_queue::DependencyQueue;
+    pub use super::InstructionFrameInteraction;
+    use super::{MemoryAccessType, ScheduledGraphNode};
+
+    /// A dependency queue for one memory region.
+    #[derive(Default)]
+    pub struct MemoryQueue(DependencyQueue<MemoryAccessType>);
+
+    impl MemoryQueue {
+        pub fn new() -> Self {
+            Self::default()
+        }
+
+        /// Record an access; return `(access type, node)` for every reported dependency.
+        pub fn record(
+            &mut self,
+            node: ScheduledGraphNode,
+            access: MemoryAccessType,
+        ) -> Vec<(MemoryAccessType, ScheduledGraphNode)> {
+            self.0
+                .record_access_and_get_dependencies(node, access)
+                .into_iter()
+                .map(|dependency| (dependency.access_type, dependency.node_id))
+                .collect()
+        }
+
+        pub fn into_pending(self) -> Vec<(MemoryAccessType, ScheduledGraphNode)> {
+            self.0
+                .into_pending_dependencies()
+                .into_iter()
+                .map(|dependency| (dependency.access_type, dependency.node_id))
+                .collect()
+        }
+    }
+
+    /// A dependency queue for one frame.
+    #[derive(Default)]
+    pub struct FrameQueue(DependencyQueue<InstructionFrameInteraction>);
+
+    impl FrameQueue {
+        pub fn new() -> Self {
+            Self::default()
+        }
+
+        pub fn record(
+            &mut self,
+            node: ScheduledGraphNode,
+            interaction: InstructionFrameInteraction,
+        ) -> Vec<ScheduledGraphNode> {
+            self.0
+                .record_access_and_get_dependencies(node, interaction)
+                .into_iter()
+                .collect()
+        }
+
+        pub fn into_pending(self) -> Vec<ScheduledGraphNode> {
+            self.0.into_pending_dependencies().into_iter().collect()
+        }
+    }
+}
